@@ -145,6 +145,28 @@ def gen(repo, rel, ns, int_consts, byte_consts, packed, funcs, ctrl_write_impl):
         if bl:
             s += "def bytelits_%s : List Nat := %s\n" % (fn, exlib.lean_nat_list(bl))
         s += "\n"
+    # the size limit of the connectionless writer: `if payload.len() > <expr> { return Err(TooLongData) }`
+    body = exlib.fn_body(src, "write_connless_packet", 0, rel)
+    m = re.search(r"payload\.len\(\)\s*>\s*([^{]+)\{\s*return\s+Err\(Error::TooLongData\)", body)
+    if not m:
+        raise exlib.ExtractError("size check of write_connless_packet not found in %s" % rel)
+    try:
+        lim = int(eval(m.group(1), {"__builtins__": {}}, dict(env)))
+    except Exception as ex:
+        raise exlib.ExtractError("cannot evaluate the connless size limit %s in %s: %r" % (m.group(1).strip(), rel, ex))
+    s += "/-- `write_connless_packet` refuses payloads longer than `%s` -/\n" % m.group(1).strip()
+    s += "def CONNLESS_WRITE_LIMIT : Nat := %d\n\n" % lim
+    # the `payload.len() > <expr> => Compression` check of read_impl
+    body = exlib.fn_body(src, "read_impl", 0, rel)
+    m = re.search(r"payload\.len\(\)\s*>\s*([^{]+)\{\s*return\s+Err\(Compression\)", body)
+    if not m:
+        raise exlib.ExtractError("decompressed-size check of read_impl not found in %s" % rel)
+    try:
+        lim = int(eval(m.group(1), {"__builtins__": {}}, dict(env)))
+    except Exception as ex:
+        raise exlib.ExtractError("cannot evaluate the read size limit %s in %s: %r" % (m.group(1).strip(), rel, ex))
+    s += "/-- `read_impl` rejects (decompressed) payloads longer than `%s` -/\n" % m.group(1).strip()
+    s += "def READ_PAYLOAD_LIMIT : Nat := %d\n\n" % lim
     # `impl ControlPacket { fn write }`
     body = exlib.fn_body(impl_body(src, "ControlPacket", rel), "write", 0, "%s impl ControlPacket" % rel)
     s += "/-- integer literals of `ControlPacket::write` in %s -/\n" % rel
